@@ -82,7 +82,7 @@ PROPS = {
         'profiles': ['debug', 'release'],
         'theorems': ['C16_convert_lane_pair', 'C16_convert_bases_spec', 'C16_pack_spec', 'C16_from_acgt_paths_agree',
                      'C16_stored_bases', 'C16_from_acgt_inv', 'C16_agree_with_str', 'C16_render_roundtrip', 'C16_dna_only_runs',
-                     'C16_dna_only_runs_bytes', 'C16_runs_maximal', 'C16_dna_only_runs_old', 'C16_dna_only_nonascii_refuted',
+                     'C16_dna_only_runs_bytes', 'C16_runs_maximal', 'C16_runs_unique', 'C16_dna_only_runs_old', 'C16_dna_only_nonascii_refuted',
                      'C16_hashn_spec', 'C16_hashn_local', 'C16_hashn_checkers'],
         'trusted_extra': ['Intel AVX2 intrinsic semantics as transcribed in coq/Packed/Avx2Model.v (validated only by the runs on this CPU)',
                           'std::collections::hash_map::DefaultHasher is a fixed function of the bytes fed (Section variable H)'],
